@@ -150,6 +150,16 @@ def concat_stch_search(ctx, shim, r, nfonts, per_font, pc, pt):
                               classify=F.stch_known_class)
 
 
+def concat_gposdev_search(ctx, shim, r, nfonts, per_font, pc, pt):
+    import _gposflag as GF
+    C03mod.metamorphic_search(ctx, shim, r, per_font, pc, pt, False, "concat-redistribution-gposdev", F.verify_concat, [pc, pc, pc | pt],
+                              "redistributing UNSAFE_TO_CONCAT-free segments changes the result",
+                              GF.GPOSDEV_RULE + "the redistribution experiment of concat-redistribution-ot (both texts shaped with the "
+                              "same ppem / variation coordinates)",
+                              kind="concat", groups=GF.gposdev_groups(r, nfonts), make=lambda r, g, fl, k: GF.make_gposdev_shaping(r, g, fl),
+                              classify=GF.gposdev_known_class)
+
+
 FRACTION_RULE = ("fonts with fraction features (synthetic: digits, U+2044, letters of Latin / Hebrew, any of frac / numr / dnom that makes "
                  "the plan fraction-aware; plus every font under tests/fonts that names frac or numr+dnom) x texts of digit runs, "
                  "U+2044 FRACTION SLASH, letters and spaces with at least one slash (digits on both, one or no side of it) x "
@@ -196,12 +206,18 @@ def run(ctx):
     import C06 as C06mod
     ctx.correspond("gsub-flags", groups=C03mod.gsub_flag_groups(ctx, shim, ctx.rng("gsub-flags"), ctx.budget(150, 3000), 10),
                    classify=C06mod.gsub_classify, canon=F.canon_panic, only=lambda ln: ln.startswith("gsub "))
+    # PairPos: unsafe_to_concat over [idx, second + 1) on every path that looked at the second glyph (no second glyph, no
+    # record, records that did nothing), unsafe_to_break (which includes CONCAT) when a record worked: GposFlag.lean vs the crate
+    import _gposflag as GF
+    ctx.correspond("gpos-pair-flags", lines=GF.pair_lines(ctx.rng("gpos-flags"), ctx.budget(4000, 150000), pc),
+                   classify=GF.classify_pair, canon=GF.canon)
     hook_search(ctx, shim, ctx.rng("hook"), ctx.budget(20000, 300000), pc, pt)
     C03mod.carry_search(ctx, shim, ctx.rng("carry-exact"), ctx.budget(10000, 200000), pc, pt)
     shape_hygiene(ctx, shim, ctx.rng("hygiene"), ctx.budget(48, 400), pc, pt)
     concat_search(ctx, shim, ctx.rng("concat-ot"), ctx.budget(60, 1000), pc, pt, False, "concat-redistribution-ot")
     concat_search(ctx, shim, ctx.rng("concat-aat"), ctx.budget(80, 1500), pc, pt, True, "concat-redistribution-aat")
     concat_synth_search(ctx, shim, ctx.rng("concat-synth"), ctx.budget(200, 4000), 12, pc, pt)
+    concat_gposdev_search(ctx, shim, ctx.rng("concat-gposdev"), ctx.budget(160, 3000), 12, pc, pt)
     concat_fraction_search(ctx, shim, ctx.rng("concat-fraction"), ctx.budget(30, 400), ctx.budget(30, 60), pc, pt)
     concat_di_search(ctx, shim, ctx.rng("concat-di"), ctx.budget(300, 6000), 16, pc, pt)
     concat_stch_search(ctx, shim, ctx.rng("concat-stch"), ctx.budget(100, 2000), 12, pc, pt)
